@@ -856,7 +856,9 @@ def run_resolution(pid: str, col: Collector, seed: int, n: int, focus: Optional[
     t_docs = time.time() + 0.2 * budget
     done_docs = 0
     fixed_docs = ["1 Minn. L. Rev. ___. Id. at 5.", "1 U.S. " + "1" * 5000 + ". Id. at 5.",
-                  "Foo v. Bar, 1 U.S. 100 (holding Smith). Smith at 5.", "1 U.S. ___. Id. at 5.", ""]
+                  "Foo v. Bar, 1 U.S. 100 (holding Smith). Smith at 5.", "1 U.S. ___. Id. at 5.", "",
+                  "Foo v. Bar, 1 U.S. 1. Foo, 3 F.2d, at 7.",
+                  "Foo v. Bar, 1 U.S. 1. Smith v. Jones, 2 F.2d 5. Doe v. Roe, 2 F.2d 90. Foo, 2 F.2d, at 7."]
     for d in range(ndocs + len(fixed_docs)):
         if time.time() > t_docs:
             break
@@ -876,7 +878,7 @@ def run_resolution(pid: str, col: Collector, seed: int, n: int, focus: Optional[
     try:
         import gen as _gen  # type: ignore
         shared = 0
-        for case in _gen.documents(seed, max(10, n // 6), focus=None):
+        for case in _gen.documents(seed, max(30, n // 3), focus=(focus if focus and focus.split("/")[0].startswith("resolve.") else "resolve.resolve_citations")):
             if time.time() > t_docs:
                 break
             text = case.get("text")
